@@ -15,6 +15,8 @@ const OP_DECOMP: u64 = 0;
 const OP_RESET_NONE: u64 = 1;
 const OP_RESET_SOME_NONE: u64 = 2;
 const OP_RESET_SOME_SIZE: u64 = 3;
+/// decompress stream (arg & 0xFF) with the source failing at refill (arg >> 8)
+const OP_DECOMP_SRC_FAULT: u64 = 4;
 
 fn gen(t: &mut Tape, _tier: Tier) -> Scenario {
     let mut sc = Scenario::new("c14");
@@ -70,8 +72,12 @@ fn gen(t: &mut Tape, _tier: Tier) -> Scenario {
     let mut ops = Vec::new();
     for _ in 0..t.range(2, 10) {
         let r = t.below(10);
-        if r < 5 {
+        if r < 4 {
             ops.extend_from_slice(&[OP_DECOMP, t.below(nstreams as u64)]);
+        } else if r == 4 {
+            // the upstream dies half-way through a decode (I/O error, not corruption)
+            let k = t.range(1, 60);
+            ops.extend_from_slice(&[OP_DECOMP_SRC_FAULT, (k << 8) | t.below(nstreams as u64)]);
         } else if lzma2 || r == 5 {
             ops.extend_from_slice(&[OP_RESET_NONE, 0]);
         } else if r == 6 {
@@ -119,6 +125,7 @@ fn exec(sc: &Scenario, ctx: &mut Ctx) -> Vec<Violation> {
     let mut result: Vec<Violation> = Vec::new();
     let mut compared = 0u64;
     let mut dirty_compared = 0u64;
+    let mut io_dirty = 0u64;
     let r = guarded(|| {
         let mut d1 = if lzma2 { None } else { LzmaDecoder::new(params(cur_size), None).ok() };
         let mut d2 = if lzma2 { Some(Lzma2Decoder::new()) } else { None };
@@ -173,6 +180,24 @@ fn exec(sc: &Scenario, ctx: &mut Ctx) -> Vec<Violation> {
                     }
                     just_reset = false;
                 }
+                OP_DECOMP_SRC_FAULT => {
+                    let data = streams[((p[1] & 0xFF) as usize).min(streams.len() - 1)];
+                    let mut out = Vec::new();
+                    let script = [1u64];
+                    let mut src = crate::env::SimSource::new(data, &script, crate::env::Faults::one(p[1] >> 8, crate::env::FK_OTHER));
+                    let v = if let Some(d) = d1.as_mut() {
+                        err_kind(d.decompress(&mut src, &mut out))
+                    } else if let Some(d) = d2.as_mut() {
+                        err_kind(d.decompress(&mut src, &mut out))
+                    } else {
+                        Verdict::Err("constructor refused".into())
+                    };
+                    if !v.is_ok() {
+                        dirty = true;
+                        io_dirty += 1;
+                    }
+                    just_reset = false;
+                }
                 OP_RESET_NONE => {
                     if let Some(d) = d1.as_mut() {
                         d.reset(None);
@@ -207,6 +232,7 @@ fn exec(sc: &Scenario, ctx: &mut Ctx) -> Vec<Violation> {
     });
     ctx.stats.add("probe.reset_then_decompress_compared_with_fresh_decoder", compared);
     ctx.stats.add("probe.compared_after_a_decode_failed_half_way", dirty_compared);
+    ctx.stats.add("fault.fired.source_error_in_the_middle_of_a_decode", io_dirty);
     if lzma2 {
         ctx.stats.hit("arm.lzma2_decoder");
     } else {
@@ -222,7 +248,7 @@ fn exec(sc: &Scenario, ctx: &mut Ctx) -> Vec<Violation> {
 pub static C14: SimpleProp = SimpleProp {
     id: "C14",
     level: "exploration",
-    rule: "one evaluation = one history of 4-12 operations {decompress stream i (valid, bit-flipped, truncated, spliced), reset(None), reset(Some(None)), reset(Some(Some(n)))} on a single raw::LzmaDecoder (any lc/lp/pb, dictionary 1..65536) or raw::Lzma2Decoder (streams with changing properties); after every reset the next decompress is compared (verdict, bytes, consumed count) with a freshly constructed decoder with the same parameters and the size last specified; non-trivial = at least one such comparison; distinct by scenario hash",
+    rule: "one evaluation = one history of 4-12 operations {decompress stream i (valid, bit-flipped, truncated, spliced, or cut short by an injected source error after k one-byte refills), reset(None), reset(Some(None)), reset(Some(Some(n)))} on a single raw::LzmaDecoder (any lc/lp/pb, dictionary 1..65536) or raw::Lzma2Decoder (streams with changing properties); after every reset the next decompress is compared (verdict, bytes, consumed count) with a freshly constructed decoder with the same parameters and the size last specified; non-trivial = at least one such comparison; distinct by scenario hash",
     runs_quick: 60_000,
     runs_thorough: 3_000_000,
     both_profiles: false,
